@@ -48,7 +48,7 @@ finite_floats = st.one_of(
     nice_floats, nice_floats,
     st.floats(-1e6, 1e6, allow_nan=False, allow_infinity=False),
     st.floats(allow_nan=False, allow_infinity=False, width=64),
-    st.sampled_from([1e30, -1e30, 1e300, 9.3e18, -9.3e18, float(2 ** 63), 5e-324]),
+    st.sampled_from([1e30, -1e30, 1e300, 9.3e18, -9.3e18, float(2 ** 63), 5e-324, 1e-17, -3e-200, 2.5e-16]),
 )
 TEXT_ALPHABET = "abcxyz AB019-_.é߀"
 texts = st.text(alphabet=TEXT_ALPHABET, max_size=6)
@@ -441,8 +441,39 @@ def forwarding_class():
             return self.__class__(self.props.update(
                 inner=self.props.inner.__accept__(visitor, value=value, **kwargs)))
 
+    class Fwd2(Fwd):
+        """A custom type derived from another custom type, with its own hooks: the real target lives
+        under 'inner2', while 'inner' (what the parent's hooks would forward to) holds a decoy."""
+
+        def __call__(self, inner):
+            from d42 import schema
+            return self.__class__(self.props.update(inner2=inner, inner=schema.bytes(b"decoy")))
+
+        def __represent__(self, visitor, *, indent=0, **kwargs):
+            self._rec("represent", {"indent": indent, **kwargs})
+            return self.props.get("inner2").__accept__(visitor, indent=indent, **kwargs)
+
+        def __generate__(self, visitor, **kwargs):
+            self._rec("generate", kwargs)
+            return self.props.get("inner2").__accept__(visitor, **kwargs)
+
+        def __validate__(self, visitor, *, value, path, **kwargs):
+            self._rec("validate", {"path": path, **kwargs})
+            return self.props.get("inner2").__accept__(visitor, value=value, path=path, **kwargs)
+
+        def __substitute__(self, visitor, *, value, **kwargs):
+            self._rec("substitute", kwargs)
+            return self.__class__(self.props.update(
+                inner2=self.props.get("inner2").__accept__(visitor, value=value, **kwargs)))
+
     _CUSTOM["cls"] = Fwd
+    _CUSTOM["sub"] = Fwd2
     return Fwd
+
+
+def forwarding_subclass():
+    forwarding_class()
+    return _CUSTOM["sub"]
 
 
 def build(spec, wrap_custom=True):
@@ -515,7 +546,10 @@ def build(spec, wrap_custom=True):
         return schema.alias(spec["name"], build(spec["spec"], wrap_custom))
     if t == "custom":
         inner = build(spec["spec"], wrap_custom)
-        return forwarding_class()()(inner) if wrap_custom else inner
+        if not wrap_custom:
+            return inner
+        cls = forwarding_subclass() if spec.get("sub") else forwarding_class()
+        return cls()(inner)
     if t == "or":
         return build(spec["a"], wrap_custom) | build(spec["b"], wrap_custom)
     if t == "add":
